@@ -6,15 +6,15 @@ from . import oracles as O
 from . import small as SM
 
 CONFIG = {
-    'C01': dict(streams=[('td_class', 480), ('td_wf', 1040), ('td_coarse', 360)], keep='om'),
+    'C01': dict(streams=[('td_class', 480), ('td_wf', 960), ('td_coarse', 320), ('fail_wf', 240)], keep='om'),
     'C02': dict(streams=[('td_exact', 880), ('td_wf', 480)], keep='ov'),
-    'C03': dict(streams=[('bu_wf', 1040), ('mixed_wf', 360)], keep='ovm'),
+    'C03': dict(streams=[('bu_wf', 960), ('mixed_wf', 320), ('newreq', 160)], keep='ovm'),
     'C04': dict(streams=[('bu_wf', 1120), ('mixed_wf', 160), ('newreq', 160), ('abort_bu', 240)], keep='ov'),
     'C05': dict(streams=[('inj_hidden', 1200), ('siblings', 240), ('td_wf', 160)], keep='om'),
     'C06': dict(streams=[('inj_overlap', 1200), ('td_wf', 160)], keep='om'),
     'C07': dict(streams=[('inj_cycle', 1200)], keep='ov'),
-    'C08': dict(streams=[('td_wf', 640), ('bu_wf', 400), ('multi', 80)], keep='od'),
-    'C09': dict(streams=[('td_coarse', 880), ('bu_wf', 320)], keep='dv'),
+    'C08': dict(streams=[('td_wf', 560), ('bu_wf', 320), ('multi', 80), ('panic', 240), ('abort_bu', 120)], keep='od'),
+    'C09': dict(streams=[('td_coarse', 880), ('bu_wf', 320), ('multi', 80)], keep='dv'),
     'C16': dict(streams=[('td_wf', 240), ('bu_wf', 240), ('mixed_wf', 120), ('newreq', 160)], keep='oevdm', two_process=True),
     'C17': dict(streams=[('td_wf', 480), ('bu_wf', 480), ('fail_wf', 240), ('panic', 160), ('failstamp', 160)], keep='v', extra='tracker'),
     'C18': dict(streams=[('fail_wf', 800), ('fail_bu', 500), ('fail_mixed', 300)], keep='eov'),
@@ -227,7 +227,7 @@ def run(prop, tier, seed, replay=None):
         fs = O.run_oracles(prog, meta, sessions)
         for (pr, sig, msg) in fs:
             pr2, sig2 = remap(prog, pr, sig)
-            if pr2 == prop:
+            if mine(prop, pr2, sig2):
                 findings.append((sig2, msg, i))
         if impl2 is not None and impl2[i] != impl[i]:
             a, b = impl[i], impl2[i] or []
@@ -331,6 +331,13 @@ def run(prop, tier, seed, replay=None):
     return rc
 
 
+# findings of a neighbouring property that a check also reports as its own: C01's statement (a require that returns gives
+# the from-scratch result) does not stop holding when a checker fails during validation
+ALSO = {'C01': {('C18', 'stale-output'), ('C18', 'stale-resource')}}
+def mine(prop, pr, sig):
+    return pr == prop or (pr, sig) in ALSO.get(prop, ())
+
+
 def remap(prog, pr, sig):
     """attribute findings of special streams"""
     if prog.kind == 'multi' and sig in ('stale-output', 'stale-resource'):
@@ -382,7 +389,7 @@ def shrink_case(exe_impl, prog, steps, meta, prop, sig, msg):
               'probe_steps': {remapidx[k]: remapidx[v] for k, v in meta.get('probe_steps', {}).items() if k in remapidx and v in remapidx and remapidx[k] > remapidx[v] and all(st[j][0] == 'F' for j in range(remapidx[v] + 1, remapidx[k]))}}
         for (pr, sg, m) in O.run_oracles(prog, m2, sessions):
             pr2, sg2 = remap(prog, pr, sg)
-            if pr2 == prop and sg2 == sig:
+            if mine(prop, pr2, sg2) and sg2 == sig:
                 return m
         return None
     cur = list(steps)
